@@ -96,14 +96,15 @@ def main():
     out.append("")
     out.append("### B.3 Behaviour-preserving changes written by independent sub-agents (`silent/<id>/`)")
     out.append("")
-    out.append("The reverse experiment: three further sub-agents (one per property, again given only the property text")
+    out.append("The reverse experiment, in three rounds of three sub-agents (one per property, again given only the property text")
     out.append("and a scratch worktree) were asked for realistic refactorings that do **not** break the property but change")
     out.append("as much as possible underneath it - other data structures and algorithms, internal steps in another order,")
     out.append("output in one write call instead of many, `serialize_str` instead of `collect_str`, other error values and")
     out.append("error precedence where the property names no error, extra accessor calls, correct fast paths, sorted")
     out.append("`iter()`. Each comes with the agent's clause-by-clause argument (`notes.md`) and was differential-tested by")
     out.append("its author against HEAD. A checker that demands more than the property states would raise a false alarm")
-    out.append("on these; none of the three checks did.")
+    out.append("on these; none of the three checks did (rounds s1 and s2 measured in the second full measurement and again")
+    out.append("for C16 after its last change; round s3 measured against the final checks).")
     out.append("")
     out.append("| id | suite with patch | C12 | C14 | C16 | verdict |")
     out.append("|---|---|---|---|---|---|")
